@@ -1,4 +1,5 @@
 SPECIFICATION Spec
-CONSTANTS Scenarios <- ScHonest
-INVARIANTS S1 S2 S3 S3b HonestSucceeds
+CONSTANTS Scenarios <- ScHonestAll
+          ServerStrictRule = "peer"
+INVARIANTS S1 S2 S3 S3b S5 S6 HonestSucceeds
 CHECK_DEADLOCK FALSE
